@@ -206,7 +206,8 @@ func (c *verifCrash) restoreOne(img *verifImage, cfg [3]bool, mode int, ufRand b
 	}
 	if cres.class != "ok" || !exact {
 		sig := "cleanup-not-exact-after-restart"
-		if image.uninit {
+		if image.uninit && cres.class != "ok" {
+			// exactly the repaired defect 323e1d0: Cleanup errors out while nothing was ever committed
 			sig = "cleanup-fails-before-first-commit"
 		}
 		fail(sig, "Cleanup -> %s, directories %s, live snapshot ids %s", cres.class, verifLsStr(post.ids, post.temps), verifJoin(want))
